@@ -481,7 +481,7 @@ def scanBody (z : Dec) (neg : Bool) (s1 : List Nat) (base : Nat) : Except ScanEr
           else
             let p := pow2 (prec + DW) exp2.natAbs
             let r := if exp2 < 0 then (quo z1 z1 p true false).1 else (mul z1 z1 p true false).1
-            .ok (r, b, s3)
+            if r.form != .finite then .error .expOverflow else .ok (r, b, s3)
 
 theorem scanDec_nil (z : Dec) (base : Nat) : scanDec z [] base = .error .eof := rfl
 
